@@ -548,3 +548,823 @@ Qed.
 
 Lemma frame_rest op body post : skipn (9 + length body) (frame op body ++ post) = post.
 Proof. rewrite <- (frame_length op). apply skipn_app_exact. Qed.
+
+(* ====================================================================== *)
+(** * 7. decode (encode x ++ pad) = x, record by record *)
+
+(* run one primitive reader: [H : skipn off buf = enc ++ post] is consumed and replaced by
+   the cursor fact for the next field; the width bound is found among the hypotheses *)
+Ltac step lem H :=
+  let E := fresh "E" in let S' := fresh "S" in let B := fresh "B" in
+  match type of (lem _ _ _ _ H) with
+  | ?P -> _ =>
+      assert (B : P) by (first [assumption | lia]);
+      destruct (lem _ _ _ _ H B) as [E S']; rewrite E; cbn [bind];
+      clear E B H; rename S' into H
+  end.
+
+(** ** Header *)
+Definition wf_header (h : header) : Prop :=
+  blen (h_profile h) < two32 /\ blen (h_library h) < two32.
+
+Theorem parse_enc_header h pad : wf_header h -> parse_header (enc_header h ++ pad) = Ok h.
+Proof.
+  destruct h as [p l]. unfold wf_header, enc_header, parse_header. cbn [h_profile h_library].
+  intros (H1 & H2). set (buf := _ ++ pad).
+  assert (H : skipn 0 buf = pstr p ++ pstr l ++ pad) by (unfold buf; rewrite <- !app_assoc; reflexivity).
+  step get_pstr_step H. step get_pstr_step H. reflexivity.
+Qed.
+
+(** ** Footer *)
+Definition wf_footer (f : footer) : Prop :=
+  f_summary_start f < two64 /\ f_summary_offset_start f < two64 /\ f_crc f < two32.
+
+Theorem parse_enc_footer f pad : wf_footer f -> parse_footer (enc_footer f ++ pad) = Ok f.
+Proof.
+  destruct f as [a b c]. unfold wf_footer, enc_footer, parse_footer.
+  cbn [f_summary_start f_summary_offset_start f_crc].
+  intros (H1 & H2 & H3). set (buf := _ ++ pad).
+  assert (H : skipn 0 buf = u64 a ++ u64 b ++ u32 c ++ pad) by (unfold buf; rewrite <- !app_assoc; reflexivity).
+  step get_u64_step H. step get_u64_step H. step get_u32_step H. reflexivity.
+Qed.
+
+(** ** Schema *)
+Definition wf_schema (s : schema) : Prop :=
+  s_id s < two16 /\ blen (s_name s) < two32 /\ blen (s_encoding s) < two32 /\ blen (s_data s) < two32.
+
+Theorem parse_enc_schema s pad : wf_schema s -> parse_schema (enc_schema s ++ pad) = Ok s.
+Proof.
+  destruct s as [id nm en da]. unfold wf_schema, enc_schema, parse_schema.
+  cbn [s_id s_name s_encoding s_data].
+  intros (H1 & H2 & H3 & H4). set (buf := _ ++ pad).
+  assert (H : skipn 0 buf = u16 id ++ pstr nm ++ pstr en ++ pstr da ++ pad)
+    by (unfold buf; rewrite <- !app_assoc; reflexivity).
+  step get_u16_step H. step get_pstr_step H. step get_pstr_step H. step get_pstr_step H.
+  reflexivity.
+Qed.
+
+(** ** Channel *)
+Definition wf_channel (c : channel) : Prop :=
+  c_id c < two16 /\ c_schema c < two16 /\ blen (c_topic c) < two32 /\ blen (c_menc c) < two32
+  /\ wf_kvs (c_meta c) /\ N.of_nat (length (enc_channel c)) < two32.
+
+Definition channel_norm (c : channel) : channel :=
+  {| c_id := c_id c; c_schema := c_schema c; c_topic := c_topic c; c_menc := c_menc c;
+     c_meta := kv_sort (c_meta c) |}.
+
+Lemma enc_map_length m : length (enc_map m) = (4 + length (enc_kvs_body (kv_sort m)))%nat.
+Proof. unfold enc_map. cbv zeta. rewrite app_length, u32_length. reflexivity. Qed.
+
+Theorem parse_enc_channel c pad :
+  wf_channel c -> parse_channel (enc_channel c ++ pad) = Ok (channel_norm c).
+Proof.
+  destruct c as [id sid tp me mt]. unfold wf_channel, channel_norm, enc_channel, parse_channel.
+  cbn [c_id c_schema c_topic c_menc c_meta].
+  intros (H1 & H2 & H3 & H4 & H5 & H6). set (buf := _ ++ pad).
+  rewrite !app_length, !u16_length, !pstr_length, enc_map_length in H6.
+  assert (H : skipn 0 buf = u16 id ++ u16 sid ++ pstr tp ++ pstr me ++ enc_map mt ++ pad)
+    by (unfold buf; rewrite <- !app_assoc; reflexivity).
+  step get_u16_step H. step get_u16_step H. step get_pstr_step H. step get_pstr_step H.
+  destruct (get_map_step _ _ _ _ H H5) as [E _]; [lia|].
+  rewrite E. reflexivity.
+Qed.
+
+(** ** Message.  The data field is "the rest of the record", so padding is NOT ignored. *)
+Definition wf_message (m : message) : Prop :=
+  m_chan m < two16 /\ m_seq m < two32 /\ m_log m < two64 /\ m_pub m < two64.
+
+Theorem parse_enc_message_pad m pad :
+  wf_message m ->
+  parse_message (enc_message m ++ pad)
+  = Ok {| m_chan := m_chan m; m_seq := m_seq m; m_log := m_log m; m_pub := m_pub m;
+          m_data := m_data m ++ pad |}.
+Proof.
+  destruct m as [ch sq lt pt da]. unfold wf_message, enc_message, parse_message.
+  cbn [m_chan m_seq m_log m_pub m_data].
+  intros (H1 & H2 & H3 & H4). set (buf := _ ++ pad).
+  assert (H : skipn 0 buf = u16 ch ++ u32 sq ++ u64 lt ++ u64 pt ++ da ++ pad)
+    by (unfold buf; rewrite <- !app_assoc; reflexivity).
+  step get_u16_step H. step get_u32_step H. step get_u64_step H. step get_u64_step H.
+  rewrite H. reflexivity.
+Qed.
+
+Theorem parse_enc_message m : wf_message m -> parse_message (enc_message m) = Ok m.
+Proof.
+  intro W. rewrite <- (app_nil_r (enc_message m)), parse_enc_message_pad by exact W.
+  destruct m. cbn. rewrite app_nil_r. reflexivity.
+Qed.
+
+(** ** Chunk: the records are taken by their length field, trailing bytes are ignored *)
+Definition wf_chunk (k : chunk) : Prop :=
+  k_start k < two64 /\ k_end k < two64 /\ k_usize k < two64 /\ k_crc k < two32
+  /\ blen (k_comp k) < two32 /\ blen (k_records k) < two64.
+
+Theorem parse_enc_chunk k pad : wf_chunk k -> parse_chunk (enc_chunk k ++ pad) = Ok k.
+Proof.
+  destruct k as [st en us crc comp recs]. unfold wf_chunk, enc_chunk, enc_chunk_top, parse_chunk.
+  cbn [k_start k_end k_usize k_crc k_comp k_records].
+  intros (H1 & H2 & H3 & H4 & H5 & H6). set (buf := _ ++ pad).
+  assert (H : skipn 0 buf = u64 st ++ u64 en ++ u64 us ++ u32 crc ++ pstr comp
+                            ++ u64 (blen recs) ++ recs ++ pad)
+    by (unfold buf; rewrite <- !app_assoc; reflexivity).
+  step get_u64_step H. step get_u64_step H. step get_u64_step H. step get_u32_step H.
+  step get_pstr_step H. step get_u64_step H.
+  pose proof (skipn_length_sub _ _ _ H) as L. rewrite app_length in L.
+  match goal with |- context [N.ltb ?a ?b] => destruct (N.ltb_spec a b) as [C|C] end;
+    [unfold blen in C; lia|].
+  unfold sub, blen. rewrite Nat2N.id, H, firstn_app_exact. reflexivity.
+Qed.
+
+(** ** Message index *)
+Definition wf_msgindex (mi : msgindex) : Prop :=
+  mi_chan mi < two16 /\ Forall wf_mi_entry (mi_entries mi)
+  /\ 6 + 16 * N.of_nat (length (mi_entries mi)) < two32.
+
+Lemma enc_msgindex_length mi : length (enc_msgindex mi) = (6 + 16 * length (mi_entries mi))%nat.
+Proof.
+  unfold enc_msgindex. cbv zeta.
+  rewrite !app_length, u16_length, u32_length, enc_mi_body_length. lia.
+Qed.
+
+Theorem parse_enc_msgindex mi pad :
+  wf_msgindex mi -> parse_msgindex (enc_msgindex mi ++ pad) = Ok mi.
+Proof.
+  destruct mi as [ch es]. unfold wf_msgindex, enc_msgindex, parse_msgindex.
+  cbn [mi_chan mi_entries]. cbv zeta.
+  intros (H1 & H2 & H3). set (body := concat (map enc_mi_entry es)) in *. set (buf := _ ++ pad).
+  assert (BL : length body = (16 * length es)%nat) by apply enc_mi_body_length.
+  assert (H : skipn 0 buf = u16 ch ++ u32 (blen body) ++ body ++ pad)
+    by (unfold buf; rewrite <- !app_assoc; reflexivity).
+  assert (HB : blen body < two32) by (unfold blen; lia).
+  step get_u16_step H. step get_u32_step H.
+  pose proof (skipn_length_sub _ _ _ H) as L. rewrite app_length in L.
+  rewrite (parse_mi_loop_ok buf _ (blen body) pad es); [reflexivity | exact H2 | exact H | | | ];
+    fold body; unfold blen; lia.
+Qed.
+
+(** ** Chunk index *)
+Definition wf_chunkindex (ci : chunkindex) : Prop :=
+  ci_start ci < two64 /\ ci_end ci < two64 /\ ci_offset ci < two64 /\ ci_length ci < two64
+  /\ Forall wf_nn (ci_mioffsets ci) /\ 10 * N.of_nat (length (ci_mioffsets ci)) < two32
+  /\ ci_milength ci < two64 /\ blen (ci_comp ci) < two32
+  /\ ci_csize ci < two64 /\ ci_usize ci < two64.
+
+Definition chunkindex_norm (ci : chunkindex) : chunkindex :=
+  {| ci_start := ci_start ci; ci_end := ci_end ci; ci_offset := ci_offset ci;
+     ci_length := ci_length ci; ci_mioffsets := nn_build (ci_mioffsets ci);
+     ci_milength := ci_milength ci; ci_comp := ci_comp ci;
+     ci_csize := ci_csize ci; ci_usize := ci_usize ci |}.
+
+Theorem parse_enc_chunkindex ci pad :
+  wf_chunkindex ci -> parse_chunkindex (enc_chunkindex ci ++ pad) = Ok (chunkindex_norm ci).
+Proof.
+  destruct ci as [st en off len mo mil comp cs us].
+  unfold wf_chunkindex, chunkindex_norm, enc_chunkindex, parse_chunkindex.
+  cbn [ci_start ci_end ci_offset ci_length ci_mioffsets ci_milength ci_comp ci_csize ci_usize].
+  cbv zeta.
+  intros (H1 & H2 & H3 & H4 & H5 & H6 & H7 & H8 & H9 & H10).
+  set (offs := concat (map enc_nn mo)) in *. set (buf := _ ++ pad).
+  assert (BL : length offs = (10 * length mo)%nat) by apply enc_nn_body_length.
+  assert (H : skipn 0 buf = u64 st ++ u64 en ++ u64 off ++ u64 len ++ u32 (blen offs) ++ offs
+                            ++ u64 mil ++ pstr comp ++ u64 cs ++ u64 us ++ pad)
+    by (unfold buf; rewrite <- !app_assoc; reflexivity).
+  assert (HB : blen offs < two32) by (unfold blen; lia).
+  step get_u64_step H. step get_u64_step H. step get_u64_step H. step get_u64_step H.
+  step get_u32_step H.
+  pose proof (skipn_length_sub _ _ _ H) as L. rewrite app_length in L.
+  match goal with |- context [parse_cio_loop _ (skipn ?o buf)] => set (o1 := o) in * end.
+  rewrite (parse_cio_loop_ok (skipn o1 buf) (blen offs)
+             (u64 mil ++ pstr comp ++ u64 cs ++ u64 us ++ pad) mo);
+    [ | exact H5 | exact H | reflexivity | fold offs; lia].
+  cbn [bind]. fold offs. fold (nn_build mo).
+  assert (H' : skipn (o1 + (0 + length offs)) buf = u64 mil ++ pstr comp ++ u64 cs ++ u64 us ++ pad).
+  { rewrite skipn_add, H. cbn [Nat.add]. apply skipn_app_exact. }
+  step get_u64_step H'. step get_pstr_step H'. step get_u64_step H'. step get_u64_step H'.
+  reflexivity.
+Qed.
+
+Theorem parse_enc_chunkindex_sorted ci pad :
+  wf_chunkindex ci -> StronglySorted nlt (ci_mioffsets ci) ->
+  parse_chunkindex (enc_chunkindex ci ++ pad) = Ok ci.
+Proof.
+  intros W S. rewrite parse_enc_chunkindex by exact W.
+  unfold chunkindex_norm. rewrite nn_build_sorted by exact S. destruct ci; reflexivity.
+Qed.
+
+(** ** Attachment index *)
+Definition wf_attindex (ai : attindex) : Prop :=
+  ai_offset ai < two64 /\ ai_length ai < two64 /\ ai_log ai < two64 /\ ai_create ai < two64
+  /\ ai_size ai < two64 /\ blen (ai_name ai) < two32 /\ blen (ai_media ai) < two32.
+
+Theorem parse_enc_attindex ai pad :
+  wf_attindex ai -> parse_attindex (enc_attindex ai ++ pad) = Ok ai.
+Proof.
+  destruct ai as [off len lt ct sz nm me]. unfold wf_attindex, enc_attindex, parse_attindex.
+  cbn [ai_offset ai_length ai_log ai_create ai_size ai_name ai_media].
+  intros (H1 & H2 & H3 & H4 & H5 & H6 & H7). set (buf := _ ++ pad).
+  assert (H : skipn 0 buf = u64 off ++ u64 len ++ u64 lt ++ u64 ct ++ u64 sz ++ pstr nm ++ pstr me ++ pad)
+    by (unfold buf; rewrite <- !app_assoc; reflexivity).
+  step get_u64_step H. step get_u64_step H. step get_u64_step H. step get_u64_step H.
+  step get_u64_step H. step get_pstr_step H. step get_pstr_step H. reflexivity.
+Qed.
+
+(** ** Statistics *)
+Definition wf_statistics (s : statistics) : Prop :=
+  st_messages s < two64 /\ st_schemas s < two16 /\ st_channels s < two32
+  /\ st_attachments s < two32 /\ st_metadata s < two32 /\ st_chunks s < two32
+  /\ st_start s < two64 /\ st_end s < two64
+  /\ Forall wf_nn (st_counts s) /\ 10 * N.of_nat (length (st_counts s)) < two32.
+
+Definition statistics_norm (s : statistics) : statistics :=
+  {| st_messages := st_messages s; st_schemas := st_schemas s; st_channels := st_channels s;
+     st_attachments := st_attachments s; st_metadata := st_metadata s; st_chunks := st_chunks s;
+     st_start := st_start s; st_end := st_end s; st_counts := nn_build (st_counts s) |}.
+
+Theorem parse_enc_statistics s pad :
+  wf_statistics s -> parse_statistics (enc_statistics s ++ pad) = Ok (statistics_norm s).
+Proof.
+  destruct s as [mc sc cc ac mdc kc st en cnts].
+  unfold wf_statistics, statistics_norm, enc_statistics, parse_statistics.
+  cbn [st_messages st_schemas st_channels st_attachments st_metadata st_chunks st_start st_end st_counts].
+  cbv zeta.
+  intros (H1 & H2 & H3 & H4 & H5 & H6 & H7 & H8 & H9 & H10).
+  set (cnt := concat (map enc_nn cnts)) in *. set (buf := _ ++ pad).
+  assert (BL : length cnt = (10 * length cnts)%nat) by apply enc_nn_body_length.
+  assert (H : skipn 0 buf = u64 mc ++ u16 sc ++ u32 cc ++ u32 ac ++ u32 mdc ++ u32 kc
+                            ++ u64 st ++ u64 en ++ u32 (blen cnt) ++ cnt ++ pad)
+    by (unfold buf; rewrite <- !app_assoc; reflexivity).
+  assert (HB : blen cnt < two32) by (unfold blen; lia).
+  pose proof (skipn_length_sub _ _ _ H) as L0.
+  rewrite !app_length, !u64_length, !u32_length, u16_length in L0.
+  destruct (Nat.ltb_spec (length buf) 46); [lia|].
+  step get_u64_step H. step get_u16_step H. step get_u32_step H. step get_u32_step H.
+  step get_u32_step H. step get_u32_step H. step get_u64_step H. step get_u64_step H.
+  step get_u32_step H.
+  unfold blen at 1 2. rewrite Nat2N.id.
+  match goal with |- context [Nat.ltb ?a ?b] => destruct (Nat.ltb_spec a b) end; [lia|].
+  rewrite (parse_counts_loop_ok buf _ pad cnts); [reflexivity | exact H9 | exact H | reflexivity | lia].
+Qed.
+
+Theorem parse_enc_statistics_sorted s pad :
+  wf_statistics s -> StronglySorted nlt (st_counts s) ->
+  parse_statistics (enc_statistics s ++ pad) = Ok s.
+Proof.
+  intros W S. rewrite parse_enc_statistics by exact W.
+  unfold statistics_norm. rewrite nn_build_sorted by exact S. destruct s; reflexivity.
+Qed.
+
+(** ** Metadata *)
+Definition wf_metadata (m : metadata) : Prop :=
+  blen (md_name m) < two32 /\ wf_kvs (md_meta m) /\ N.of_nat (length (enc_metadata m)) < two32.
+
+Definition metadata_norm (m : metadata) : metadata :=
+  {| md_name := md_name m; md_meta := kv_sort (md_meta m) |}.
+
+Theorem parse_enc_metadata m pad :
+  wf_metadata m -> parse_metadata (enc_metadata m ++ pad) = Ok (metadata_norm m).
+Proof.
+  destruct m as [nm mt]. unfold wf_metadata, metadata_norm, enc_metadata, parse_metadata.
+  cbn [md_name md_meta].
+  intros (H1 & H2 & H3). set (buf := _ ++ pad).
+  rewrite !app_length, !pstr_length, enc_map_length in H3.
+  assert (H : skipn 0 buf = pstr nm ++ enc_map mt ++ pad)
+    by (unfold buf; rewrite <- !app_assoc; reflexivity).
+  step get_pstr_step H.
+  destruct (get_map_step _ _ _ _ H H2) as [E _]; [lia|].
+  rewrite E. reflexivity.
+Qed.
+
+(** ** Metadata index *)
+Definition wf_mdindex (x : mdindex) : Prop :=
+  mx_offset x < two64 /\ mx_length x < two64 /\ blen (mx_name x) < two32.
+
+Theorem parse_enc_mdindex x pad : wf_mdindex x -> parse_mdindex (enc_mdindex x ++ pad) = Ok x.
+Proof.
+  destruct x as [off len nm]. unfold wf_mdindex, enc_mdindex, parse_mdindex.
+  cbn [mx_offset mx_length mx_name].
+  intros (H1 & H2 & H3). set (buf := _ ++ pad).
+  assert (H : skipn 0 buf = u64 off ++ u64 len ++ pstr nm ++ pad)
+    by (unfold buf; rewrite <- !app_assoc; reflexivity).
+  step get_u64_step H. step get_u64_step H. step get_pstr_step H. reflexivity.
+Qed.
+
+(** ** Summary offset *)
+Definition wf_sumoffset (s : sumoffset) : Prop := so_start s < two64 /\ so_length s < two64.
+
+Theorem parse_enc_sumoffset s pad :
+  wf_sumoffset s -> parse_sumoffset (enc_sumoffset s ++ pad) = Ok s.
+Proof.
+  destruct s as [op gs gl]. unfold wf_sumoffset, enc_sumoffset, parse_sumoffset.
+  cbn [so_op so_start so_length].
+  intros (H1 & H2). set (buf := _ ++ pad).
+  assert (H : skipn 1 buf = u64 gs ++ u64 gl ++ pad)
+    by (unfold buf; cbn [app skipn]; rewrite <- !app_assoc; reflexivity).
+  assert (L : length buf = (17 + length pad)%nat).
+  { unfold buf. cbn [app length]. rewrite !app_length, !u64_length. lia. }
+  destruct (Nat.ltb_spec (length buf) 17); [lia|].
+  step get_u64_step H. step get_u64_step H. reflexivity.
+Qed.
+
+(** ** Data end *)
+Definition wf_dataend (d : dataend) : Prop := de_crc d < two32.
+
+Theorem parse_enc_dataend d pad : wf_dataend d -> parse_dataend (enc_dataend d ++ pad) = Ok d.
+Proof.
+  destruct d as [c]. unfold wf_dataend, enc_dataend, parse_dataend. cbn [de_crc].
+  intros H1. set (buf := _ ++ pad).
+  assert (H : skipn 0 buf = u32 c ++ pad) by reflexivity.
+  step get_u32_step H. reflexivity.
+Qed.
+
+(* ====================================================================== *)
+(** * 8. general (unsorted) form for the uint16 -> uint64 maps
+
+   The writer emits channel_message_counts / message_index_offsets in channel registration
+   order.  The reader rebuilds them with [nn_build]: same lookups, same entries up to order. *)
+
+Lemma nn_set_perm k v acc :
+  ~ In k (map fst acc) -> Permutation ((k, v) :: acc) (nn_set k v acc).
+Proof.
+  induction acc as [|x r IH]; cbn [nn_set map]; intro H; [reflexivity|].
+  destruct (N.eqb_spec (fst x) k) as [E|NE]; [exfalso; apply H; left; exact E|].
+  destruct (k <? fst x); [reflexivity|].
+  rewrite perm_swap. apply perm_skip, IH. intro; apply H; right; assumption.
+Qed.
+
+Lemma nn_build_from_perm l : forall acc,
+  NoDup (map fst (acc ++ l)) -> Permutation (acc ++ l) (nn_build_from acc l).
+Proof.
+  unfold nn_build_from.
+  induction l as [|[k v] l IH]; intros acc ND; cbn [fold_left fst snd]; [now rewrite app_nil_r|].
+  assert (P : Permutation (acc ++ (k, v) :: l) (nn_set k v acc ++ l)).
+  { rewrite <- Permutation_middle. rewrite app_comm_cons. apply Permutation_app_tail, nn_set_perm.
+    rewrite map_app in ND. cbn [map fst] in ND. apply NoDup_remove_2 in ND.
+    intro; apply ND, in_or_app; left; assumption. }
+  rewrite P. apply IH. eapply Permutation_NoDup; [apply Permutation_map, P | exact ND].
+Qed.
+
+Theorem nn_build_perm l : NoDup (map fst l) -> Permutation l (nn_build l).
+Proof. intro ND. apply (nn_build_from_perm l []). exact ND. Qed.
+
+Theorem parse_enc_statistics_lookup s pad :
+  wf_statistics s -> NoDup (map fst (st_counts s)) ->
+  exists s', parse_statistics (enc_statistics s ++ pad) = Ok s'
+    /\ st_counts s' = nn_build (st_counts s)
+    /\ (forall k, nn_get k (st_counts s') = nn_get k (st_counts s))
+    /\ Permutation (st_counts s) (st_counts s')
+    /\ StronglySorted nlt (st_counts s')
+    /\ st_messages s' = st_messages s /\ st_schemas s' = st_schemas s
+    /\ st_channels s' = st_channels s /\ st_attachments s' = st_attachments s
+    /\ st_metadata s' = st_metadata s /\ st_chunks s' = st_chunks s
+    /\ st_start s' = st_start s /\ st_end s' = st_end s.
+Proof.
+  intros W ND. exists (statistics_norm s). split; [apply parse_enc_statistics, W|].
+  unfold statistics_norm; cbn [st_counts st_messages st_schemas st_channels st_attachments
+                                st_metadata st_chunks st_start st_end].
+  repeat split.
+  - intro k. apply nn_get_build, ND.
+  - apply nn_build_perm, ND.
+  - apply nn_build_sorted_out.
+Qed.
+
+Theorem parse_enc_chunkindex_lookup ci pad :
+  wf_chunkindex ci -> NoDup (map fst (ci_mioffsets ci)) ->
+  exists ci', parse_chunkindex (enc_chunkindex ci ++ pad) = Ok ci'
+    /\ ci_mioffsets ci' = nn_build (ci_mioffsets ci)
+    /\ (forall k, nn_get k (ci_mioffsets ci') = nn_get k (ci_mioffsets ci))
+    /\ Permutation (ci_mioffsets ci) (ci_mioffsets ci')
+    /\ StronglySorted nlt (ci_mioffsets ci')
+    /\ ci_start ci' = ci_start ci /\ ci_end ci' = ci_end ci /\ ci_offset ci' = ci_offset ci
+    /\ ci_length ci' = ci_length ci /\ ci_milength ci' = ci_milength ci
+    /\ ci_comp ci' = ci_comp ci /\ ci_csize ci' = ci_csize ci /\ ci_usize ci' = ci_usize ci.
+Proof.
+  intros W ND. exists (chunkindex_norm ci). split; [apply parse_enc_chunkindex, W|].
+  unfold chunkindex_norm; cbn [ci_start ci_end ci_offset ci_length ci_mioffsets ci_milength
+                                ci_comp ci_csize ci_usize].
+  repeat split.
+  - intro k. apply nn_get_build, ND.
+  - apply nn_build_perm, ND.
+  - apply nn_build_sorted_out.
+Qed.
+
+(* channel / metadata maps: what the reader returns relative to what the writer was given *)
+Theorem parse_enc_channel_meta c pad :
+  wf_channel c ->
+  exists c', parse_channel (enc_channel c ++ pad) = Ok c'
+    /\ c_meta c' = kv_sort (c_meta c)
+    /\ Permutation (c_meta c) (c_meta c') /\ StronglySorted klt (c_meta c')
+    /\ c_id c' = c_id c /\ c_schema c' = c_schema c /\ c_topic c' = c_topic c /\ c_menc c' = c_menc c.
+Proof.
+  intro W. exists (channel_norm c). split; [apply parse_enc_channel, W|].
+  destruct W as (_ & _ & _ & _ & [ND _] & _).
+  unfold channel_norm; cbn [c_id c_schema c_topic c_menc c_meta].
+  repeat split; [apply kv_sort_perm | apply kv_sort_sorted, ND].
+Qed.
+
+(* kv_sort of a strictly sorted list is the list itself *)
+Lemma kv_sort_of_sorted l : StronglySorted klt l -> kv_sort l = l.
+Proof.
+  induction 1 as [|x r HS IH HF]; [reflexivity|].
+  cbn [kv_sort fold_right]. fold (kv_sort r). rewrite IH.
+  destruct r as [|y r]; [reflexivity|]. cbn [kv_insert].
+  inversion HF as [|? ? Hxy _]; subst. unfold klt in Hxy.
+  rewrite (bytes_ltb_asym _ _ Hxy). reflexivity.
+Qed.
+
+Theorem parse_enc_channel_sorted c pad :
+  wf_channel c -> StronglySorted klt (c_meta c) -> parse_channel (enc_channel c ++ pad) = Ok c.
+Proof.
+  intros W S. rewrite parse_enc_channel by exact W. unfold channel_norm.
+  rewrite kv_sort_of_sorted by exact S. destruct c; reflexivity.
+Qed.
+
+Theorem parse_enc_metadata_sorted m pad :
+  wf_metadata m -> StronglySorted klt (md_meta m) -> parse_metadata (enc_metadata m ++ pad) = Ok m.
+Proof.
+  intros W S. rewrite parse_enc_metadata by exact W. unfold metadata_norm.
+  rewrite kv_sort_of_sorted by exact S. destruct m; reflexivity.
+Qed.
+
+(* ====================================================================== *)
+(** * 9. boolean versions of the well-formedness predicates (all are decidable) *)
+
+Lemma forallb_Forall_iff {A} (f : A -> bool) (P : A -> Prop) l :
+  (forall x, f x = true <-> P x) -> (forallb f l = true <-> Forall P l).
+Proof.
+  intro HfP. induction l as [|x l IH]; cbn [forallb].
+  - split; [constructor | reflexivity].
+  - rewrite andb_true_iff, IH, HfP. split.
+    + intros [H1 H2]. constructor; assumption.
+    + intro H. inversion H; subst. split; assumption.
+Qed.
+
+Fixpoint keys_nodupb (l : list bytes) : bool :=
+  match l with
+  | [] => true
+  | k :: r => negb (existsb (bytes_eqb k) r) && keys_nodupb r
+  end.
+
+Lemma keys_nodupb_iff l : keys_nodupb l = true <-> NoDup l.
+Proof.
+  induction l as [|k r IH]; cbn [keys_nodupb].
+  - split; [constructor | reflexivity].
+  - rewrite andb_true_iff, negb_true_iff, IH. split.
+    + intros [H1 H2]. constructor; [|exact H2]. intro Hin.
+      assert (existsb (bytes_eqb k) r = true)
+        by (apply existsb_exists; exists k; split; [exact Hin | apply bytes_eqb_refl]).
+      congruence.
+    + intro H. inversion H as [|? ? Hnin ND]; subst. split; [|exact ND].
+      destruct (existsb (bytes_eqb k) r) eqn:E; [|reflexivity].
+      apply existsb_exists in E. destruct E as (x & Hx & Hkx).
+      apply bytes_eqb_eq in Hkx. subst x. contradiction.
+Qed.
+
+Definition wf_kvb (kv : bytes * bytes) : bool :=
+  (blen (fst kv) <? two32) && (blen (snd kv) <? two32).
+Definition wf_kvsb (m : kvs) : bool := keys_nodupb (map fst m) && forallb wf_kvb m.
+Definition wf_mi_entryb (e : N * N) : bool := (fst e <? two64) && (snd e <? two64).
+Definition wf_nnb (e : N * N) : bool := (fst e <? two16) && (snd e <? two64).
+
+Lemma wf_kvb_iff kv : wf_kvb kv = true <-> wf_kv kv.
+Proof. unfold wf_kvb, wf_kv. rewrite andb_true_iff, !N.ltb_lt. reflexivity. Qed.
+Lemma wf_kvsb_iff m : wf_kvsb m = true <-> wf_kvs m.
+Proof.
+  unfold wf_kvsb, wf_kvs.
+  rewrite andb_true_iff, keys_nodupb_iff, (forallb_Forall_iff _ _ _ wf_kvb_iff). reflexivity.
+Qed.
+Lemma wf_mi_entryb_iff e : wf_mi_entryb e = true <-> wf_mi_entry e.
+Proof. unfold wf_mi_entryb, wf_mi_entry. rewrite andb_true_iff, !N.ltb_lt. reflexivity. Qed.
+Lemma wf_nnb_iff e : wf_nnb e = true <-> wf_nn e.
+Proof. unfold wf_nnb, wf_nn. rewrite andb_true_iff, !N.ltb_lt. reflexivity. Qed.
+
+Definition wf_headerb (h : header) : bool :=
+  (blen (h_profile h) <? two32) && (blen (h_library h) <? two32).
+Definition wf_footerb (f : footer) : bool :=
+  (f_summary_start f <? two64) && (f_summary_offset_start f <? two64) && (f_crc f <? two32).
+Definition wf_schemab (s : schema) : bool :=
+  (s_id s <? two16) && (blen (s_name s) <? two32) && (blen (s_encoding s) <? two32)
+  && (blen (s_data s) <? two32).
+Definition wf_channelb (c : channel) : bool :=
+  (c_id c <? two16) && (c_schema c <? two16) && (blen (c_topic c) <? two32)
+  && (blen (c_menc c) <? two32) && wf_kvsb (c_meta c)
+  && (N.of_nat (length (enc_channel c)) <? two32).
+Definition wf_messageb (m : message) : bool :=
+  (m_chan m <? two16) && (m_seq m <? two32) && (m_log m <? two64) && (m_pub m <? two64).
+Definition wf_chunkb (k : chunk) : bool :=
+  (k_start k <? two64) && (k_end k <? two64) && (k_usize k <? two64) && (k_crc k <? two32)
+  && (blen (k_comp k) <? two32) && (blen (k_records k) <? two64).
+Definition wf_msgindexb (mi : msgindex) : bool :=
+  (mi_chan mi <? two16) && forallb wf_mi_entryb (mi_entries mi)
+  && (6 + 16 * N.of_nat (length (mi_entries mi)) <? two32).
+Definition wf_chunkindexb (ci : chunkindex) : bool :=
+  (ci_start ci <? two64) && (ci_end ci <? two64) && (ci_offset ci <? two64)
+  && (ci_length ci <? two64) && forallb wf_nnb (ci_mioffsets ci)
+  && (10 * N.of_nat (length (ci_mioffsets ci)) <? two32)
+  && (ci_milength ci <? two64) && (blen (ci_comp ci) <? two32)
+  && (ci_csize ci <? two64) && (ci_usize ci <? two64).
+Definition wf_attindexb (ai : attindex) : bool :=
+  (ai_offset ai <? two64) && (ai_length ai <? two64) && (ai_log ai <? two64)
+  && (ai_create ai <? two64) && (ai_size ai <? two64) && (blen (ai_name ai) <? two32)
+  && (blen (ai_media ai) <? two32).
+Definition wf_statisticsb (s : statistics) : bool :=
+  (st_messages s <? two64) && (st_schemas s <? two16) && (st_channels s <? two32)
+  && (st_attachments s <? two32) && (st_metadata s <? two32) && (st_chunks s <? two32)
+  && (st_start s <? two64) && (st_end s <? two64)
+  && forallb wf_nnb (st_counts s) && (10 * N.of_nat (length (st_counts s)) <? two32).
+Definition wf_metadatab (m : metadata) : bool :=
+  (blen (md_name m) <? two32) && wf_kvsb (md_meta m)
+  && (N.of_nat (length (enc_metadata m)) <? two32).
+Definition wf_mdindexb (x : mdindex) : bool :=
+  (mx_offset x <? two64) && (mx_length x <? two64) && (blen (mx_name x) <? two32).
+Definition wf_sumoffsetb (s : sumoffset) : bool := (so_start s <? two64) && (so_length s <? two64).
+Definition wf_dataendb (d : dataend) : bool := de_crc d <? two32.
+
+Ltac reflect_wf :=
+  rewrite ?andb_true_iff, ?N.ltb_lt, ?wf_kvsb_iff,
+          ?(forallb_Forall_iff _ _ _ wf_mi_entryb_iff), ?(forallb_Forall_iff _ _ _ wf_nnb_iff);
+  tauto.
+
+Lemma wf_headerb_iff h : wf_headerb h = true <-> wf_header h.
+Proof. unfold wf_headerb, wf_header. reflect_wf. Qed.
+Lemma wf_footerb_iff f : wf_footerb f = true <-> wf_footer f.
+Proof. unfold wf_footerb, wf_footer. reflect_wf. Qed.
+Lemma wf_schemab_iff s : wf_schemab s = true <-> wf_schema s.
+Proof. unfold wf_schemab, wf_schema. reflect_wf. Qed.
+Lemma wf_channelb_iff c : wf_channelb c = true <-> wf_channel c.
+Proof. unfold wf_channelb, wf_channel. reflect_wf. Qed.
+Lemma wf_messageb_iff m : wf_messageb m = true <-> wf_message m.
+Proof. unfold wf_messageb, wf_message. reflect_wf. Qed.
+Lemma wf_chunkb_iff k : wf_chunkb k = true <-> wf_chunk k.
+Proof. unfold wf_chunkb, wf_chunk. reflect_wf. Qed.
+Lemma wf_msgindexb_iff mi : wf_msgindexb mi = true <-> wf_msgindex mi.
+Proof. unfold wf_msgindexb, wf_msgindex. reflect_wf. Qed.
+Lemma wf_chunkindexb_iff ci : wf_chunkindexb ci = true <-> wf_chunkindex ci.
+Proof. unfold wf_chunkindexb, wf_chunkindex. reflect_wf. Qed.
+Lemma wf_attindexb_iff ai : wf_attindexb ai = true <-> wf_attindex ai.
+Proof. unfold wf_attindexb, wf_attindex. reflect_wf. Qed.
+Lemma wf_statisticsb_iff s : wf_statisticsb s = true <-> wf_statistics s.
+Proof. unfold wf_statisticsb, wf_statistics. reflect_wf. Qed.
+Lemma wf_metadatab_iff m : wf_metadatab m = true <-> wf_metadata m.
+Proof. unfold wf_metadatab, wf_metadata. reflect_wf. Qed.
+Lemma wf_mdindexb_iff x : wf_mdindexb x = true <-> wf_mdindex x.
+Proof. unfold wf_mdindexb, wf_mdindex. reflect_wf. Qed.
+Lemma wf_sumoffsetb_iff s : wf_sumoffsetb s = true <-> wf_sumoffset s.
+Proof. unfold wf_sumoffsetb, wf_sumoffset. reflect_wf. Qed.
+Lemma wf_dataendb_iff d : wf_dataendb d = true <-> wf_dataend d.
+Proof. unfold wf_dataendb, wf_dataend. reflect_wf. Qed.
+
+(* ====================================================================== *)
+(** * 10. non-vacuity: concrete instances of every hypothesis, and computed sanity checks *)
+
+(* keys in insertion order "\xe2\x82\xac" (non-ASCII), "" (empty), "a": sorted order is "", "a", "\xe2\x82\xac" *)
+Definition ex_kvs : kvs :=
+  [ ([xe2; x82; xac], [x01; xff]); ([], [xff; x00]); ([x61], []) ].
+Definition ex_pad : bytes := [xde; xad; xbe; xef; x00].
+
+Definition ex_header : header := {| h_profile := [xe2; x82; xac; x00]; h_library := [] |}.
+Definition ex_footer : footer :=
+  {| f_summary_start := 18446744073709551615; f_summary_offset_start := 0; f_crc := 4294967295 |}.
+Definition ex_schema : schema :=
+  {| s_id := 65535; s_name := [xc3; xa9]; s_encoding := []; s_data := [x00; xff; x80] |}.
+Definition ex_channel : channel :=
+  {| c_id := 513; c_schema := 0; c_topic := [x2f; xe2; x82; xac]; c_menc := []; c_meta := ex_kvs |}.
+Definition ex_message : message :=
+  {| m_chan := 513; m_seq := 4294967295; m_log := 18446744073709551615; m_pub := 1;
+     m_data := [x00; xff; x80] |}.
+Definition ex_chunk : chunk :=
+  {| k_start := 1; k_end := 18446744073709551615; k_usize := 3; k_crc := 4294967295;
+     k_comp := []; k_records := [x05; x00; xff] |}.
+Definition ex_msgindex : msgindex :=
+  {| mi_chan := 65535; mi_entries := [(5, 0); (5, 18446744073709551615); (3, 7)] |}.
+(* offsets in channel registration order 7, 2, 65535: not sorted *)
+Definition ex_nn : list (N * N) := [(7, 100); (2, 18446744073709551615); (65535, 0)].
+Definition ex_nn_sorted : list (N * N) := [(2, 18446744073709551615); (7, 100); (65535, 0)].
+Definition ex_chunkindex : chunkindex :=
+  {| ci_start := 1; ci_end := 2; ci_offset := 18446744073709551615; ci_length := 4;
+     ci_mioffsets := ex_nn; ci_milength := 66; ci_comp := [x7a; x73; x74; x64];
+     ci_csize := 5; ci_usize := 6 |}.
+Definition ex_chunkindex_sorted : chunkindex :=
+  {| ci_start := 1; ci_end := 2; ci_offset := 18446744073709551615; ci_length := 4;
+     ci_mioffsets := ex_nn_sorted; ci_milength := 66; ci_comp := [];
+     ci_csize := 5; ci_usize := 6 |}.
+Definition ex_attindex : attindex :=
+  {| ai_offset := 1; ai_length := 2; ai_log := 3; ai_create := 18446744073709551615; ai_size := 5;
+     ai_name := [xe2; x82; xac]; ai_media := [] |}.
+Definition ex_statistics : statistics :=
+  {| st_messages := 18446744073709551615; st_schemas := 65535; st_channels := 4294967295;
+     st_attachments := 1; st_metadata := 2; st_chunks := 3; st_start := 4; st_end := 5;
+     st_counts := ex_nn |}.
+Definition ex_statistics_sorted : statistics :=
+  {| st_messages := 9; st_schemas := 1; st_channels := 3; st_attachments := 0; st_metadata := 0;
+     st_chunks := 1; st_start := 4; st_end := 5; st_counts := ex_nn_sorted |}.
+Definition ex_metadata : metadata := {| md_name := []; md_meta := ex_kvs |}.
+Definition ex_mdindex : mdindex :=
+  {| mx_offset := 18446744073709551615; mx_length := 0; mx_name := [xe2; x82; xac] |}.
+Definition ex_sumoffset : sumoffset :=
+  {| so_op := xff; so_start := 18446744073709551615; so_length := 1 |}.
+Definition ex_dataend : dataend := {| de_crc := 4294967295 |}.
+
+Example wf_header_ex : wf_header ex_header.
+Proof. apply wf_headerb_iff. vm_compute. reflexivity. Qed.
+Example wf_footer_ex : wf_footer ex_footer.
+Proof. apply wf_footerb_iff. vm_compute. reflexivity. Qed.
+Example wf_schema_ex : wf_schema ex_schema.
+Proof. apply wf_schemab_iff. vm_compute. reflexivity. Qed.
+Example wf_kvs_ex : wf_kvs ex_kvs.
+Proof. apply wf_kvsb_iff. vm_compute. reflexivity. Qed.
+Example wf_channel_ex : wf_channel ex_channel.
+Proof. apply wf_channelb_iff. vm_compute. reflexivity. Qed.
+Example wf_message_ex : wf_message ex_message.
+Proof. apply wf_messageb_iff. vm_compute. reflexivity. Qed.
+Example wf_chunk_ex : wf_chunk ex_chunk.
+Proof. apply wf_chunkb_iff. vm_compute. reflexivity. Qed.
+Example wf_msgindex_ex : wf_msgindex ex_msgindex.
+Proof. apply wf_msgindexb_iff. vm_compute. reflexivity. Qed.
+Example wf_chunkindex_ex : wf_chunkindex ex_chunkindex /\ NoDup (map fst (ci_mioffsets ex_chunkindex)).
+Proof.
+  split; [apply wf_chunkindexb_iff; vm_compute; reflexivity|].
+  cbn. repeat constructor; cbn; intuition discriminate.
+Qed.
+Example ex_nn_sorted_sorted : StronglySorted nlt ex_nn_sorted.
+Proof. repeat constructor. Qed.
+Example wf_chunkindex_sorted_ex :
+  wf_chunkindex ex_chunkindex_sorted /\ StronglySorted nlt (ci_mioffsets ex_chunkindex_sorted).
+Proof. split; [apply wf_chunkindexb_iff; vm_compute; reflexivity | exact ex_nn_sorted_sorted]. Qed.
+Example wf_attindex_ex : wf_attindex ex_attindex.
+Proof. apply wf_attindexb_iff. vm_compute. reflexivity. Qed.
+Example wf_statistics_ex : wf_statistics ex_statistics /\ NoDup (map fst (st_counts ex_statistics)).
+Proof.
+  split; [apply wf_statisticsb_iff; vm_compute; reflexivity|].
+  cbn. repeat constructor; cbn; intuition discriminate.
+Qed.
+Example wf_statistics_sorted_ex :
+  wf_statistics ex_statistics_sorted /\ StronglySorted nlt (st_counts ex_statistics_sorted).
+Proof. split; [apply wf_statisticsb_iff; vm_compute; reflexivity | exact ex_nn_sorted_sorted]. Qed.
+Example wf_metadata_ex : wf_metadata ex_metadata.
+Proof. apply wf_metadatab_iff. vm_compute. reflexivity. Qed.
+Example wf_mdindex_ex : wf_mdindex ex_mdindex.
+Proof. apply wf_mdindexb_iff. vm_compute. reflexivity. Qed.
+Example wf_sumoffset_ex : wf_sumoffset ex_sumoffset.
+Proof. apply wf_sumoffsetb_iff. vm_compute. reflexivity. Qed.
+Example wf_dataend_ex : wf_dataend ex_dataend.
+Proof. apply wf_dataendb_iff. vm_compute. reflexivity. Qed.
+
+(* hypotheses of the helper lemmas *)
+Example get_map_step_ex :
+  skipn 2 ([x00; x01] ++ enc_map ex_kvs ++ ex_pad) = enc_map ex_kvs ++ ex_pad
+  /\ wf_kvs ex_kvs /\ N.of_nat (2 + 4 + length (enc_kvs_body (kv_sort ex_kvs))) < two32.
+Proof. split; [reflexivity|]. split; [exact wf_kvs_ex | vm_compute; reflexivity]. Qed.
+Example get_pstr_step_ex :
+  skipn 1 ([x00] ++ pstr [xe2; x82] ++ ex_pad) = pstr [xe2; x82] ++ ex_pad /\ blen [xe2; x82] < two32.
+Proof. split; reflexivity. Qed.
+Example unle_frame_len_ex : blen (enc_header ex_header) < two64.
+Proof. vm_compute. reflexivity. Qed.
+
+(* direct computation, independent of the theorems *)
+Example kv_sort_ex : kv_sort ex_kvs = [ ([], [xff; x00]); ([x61], []); ([xe2; x82; xac], [x01; xff]) ].
+Proof. vm_compute. reflexivity. Qed.
+Example nn_build_ex : nn_build ex_nn = ex_nn_sorted.
+Proof. vm_compute. reflexivity. Qed.
+Example run_header : parse_header (enc_header ex_header ++ ex_pad) = Ok ex_header.
+Proof. vm_compute. reflexivity. Qed.
+Example run_footer : parse_footer (enc_footer ex_footer ++ ex_pad) = Ok ex_footer.
+Proof. vm_compute. reflexivity. Qed.
+Example run_schema : parse_schema (enc_schema ex_schema ++ ex_pad) = Ok ex_schema.
+Proof. vm_compute. reflexivity. Qed.
+Example run_channel : parse_channel (enc_channel ex_channel ++ ex_pad) = Ok (channel_norm ex_channel).
+Proof. vm_compute. reflexivity. Qed.
+Example run_message : parse_message (enc_message ex_message) = Ok ex_message.
+Proof. vm_compute. reflexivity. Qed.
+Example run_chunk : parse_chunk (enc_chunk ex_chunk ++ ex_pad) = Ok ex_chunk.
+Proof. vm_compute. reflexivity. Qed.
+Example run_msgindex : parse_msgindex (enc_msgindex ex_msgindex ++ ex_pad) = Ok ex_msgindex.
+Proof. vm_compute. reflexivity. Qed.
+Example run_chunkindex :
+  parse_chunkindex (enc_chunkindex ex_chunkindex ++ ex_pad) = Ok (chunkindex_norm ex_chunkindex).
+Proof. vm_compute. reflexivity. Qed.
+Example run_attindex : parse_attindex (enc_attindex ex_attindex ++ ex_pad) = Ok ex_attindex.
+Proof. vm_compute. reflexivity. Qed.
+Example run_statistics :
+  parse_statistics (enc_statistics ex_statistics ++ ex_pad) = Ok (statistics_norm ex_statistics).
+Proof. vm_compute. reflexivity. Qed.
+Example run_metadata : parse_metadata (enc_metadata ex_metadata ++ ex_pad) = Ok (metadata_norm ex_metadata).
+Proof. vm_compute. reflexivity. Qed.
+Example run_mdindex : parse_mdindex (enc_mdindex ex_mdindex ++ ex_pad) = Ok ex_mdindex.
+Proof. vm_compute. reflexivity. Qed.
+Example run_sumoffset : parse_sumoffset (enc_sumoffset ex_sumoffset ++ ex_pad) = Ok ex_sumoffset.
+Proof. vm_compute. reflexivity. Qed.
+Example run_dataend : parse_dataend (enc_dataend ex_dataend ++ ex_pad) = Ok ex_dataend.
+Proof. vm_compute. reflexivity. Qed.
+Example run_frame :
+  get_u64 (frame OpHeader (enc_header ex_header) ++ ex_pad) 1 = Ok (12, 9%nat)
+  /\ sub (frame OpHeader (enc_header ex_header) ++ ex_pad) 9 12 = enc_header ex_header.
+Proof. split; vm_compute; reflexivity. Qed.
+
+(** ** statements that are FALSE of the model (counterexamples) *)
+
+(* (a) "parse_message (enc_message m ++ pad) = Ok m": the data field absorbs the padding *)
+Example message_pad_counterexample :
+  wf_message ex_message /\
+  parse_message (enc_message ex_message ++ [x00])
+  = Ok {| m_chan := 513; m_seq := 4294967295; m_log := 18446744073709551615; m_pub := 1;
+          m_data := [x00; xff; x80; x00] |}
+  /\ parse_message (enc_message ex_message ++ [x00]) <> Ok ex_message.
+Proof. split; [exact wf_message_ex|]. split; [vm_compute; reflexivity | vm_compute; discriminate]. Qed.
+
+(* (b) "parse_channel (enc_channel c ++ pad) = Ok c" without sorting the metadata *)
+Example channel_unsorted_counterexample :
+  wf_channel ex_channel /\ parse_channel (enc_channel ex_channel ++ ex_pad) <> Ok ex_channel.
+Proof. split; [exact wf_channel_ex | vm_compute; discriminate]. Qed.
+
+(* (c) duplicate map keys (cannot come from a Go map): the writer model keeps both entries,
+       the reader keeps the last one, so NoDup is necessary for "= kv_sort m" *)
+Definition ex_dup_kvs : kvs := [([x61], [x31]); ([x61], [x32])].
+Example dup_keys_counterexample :
+  parse_metadata (enc_metadata {| md_name := []; md_meta := ex_dup_kvs |})
+  = Ok {| md_name := []; md_meta := [([x61], [x32])] |}
+  /\ kv_sort ex_dup_kvs = ex_dup_kvs.
+Proof. split; vm_compute; reflexivity. Qed.
+
+(* (d) "parse_statistics (enc_statistics st ++ pad) = Ok st" for counts in registration order,
+       and with a duplicated channel id the reader keeps the last value (nn_get gives the first) *)
+Example statistics_unsorted_counterexample :
+  wf_statistics ex_statistics /\
+  parse_statistics (enc_statistics ex_statistics ++ ex_pad) <> Ok ex_statistics.
+Proof. split; [exact (proj1 wf_statistics_ex) | vm_compute; discriminate]. Qed.
+Example nn_dup_counterexample :
+  nn_get 7 (nn_build [(7, 1); (7, 2)]) = Some 2 /\ nn_get 7 [(7, 1); (7, 2)] = Some 1.
+Proof. split; reflexivity. Qed.
+
+(* (e) truncating integer fields: a field >= 2^width does not round-trip (why the bounds are needed) *)
+Example width_counterexample :
+  parse_dataend (enc_dataend {| de_crc := 4294967296 |}) = Ok {| de_crc := 0 |}.
+Proof. vm_compute. reflexivity. Qed.
+
+Eval vm_compute in parse_channel (enc_channel ex_channel ++ ex_pad).
+Eval vm_compute in parse_statistics (enc_statistics ex_statistics ++ ex_pad).
+Eval vm_compute in parse_message (enc_message ex_message ++ [x00]).
+Eval vm_compute in (length (enc_channel ex_channel), enc_map ex_kvs).
+
+(* (f) why the bound on the map must be strict: when the map ends exactly at offset 2^32 of
+       the record body, Go's `uint32(offset+inset) < uint32(offset)+maplen` compares against 0,
+       the loop body never runs and a non-empty map is read as empty (no error). *)
+Lemma get_map_loop_wrap_exits f buf off1 maplen :
+  N.of_nat off1 < two32 -> N.of_nat off1 + maplen = two32 ->
+  get_map_loop (S f) buf off1 0 maplen [] = Ok ([], (off1 + 0)%nat).
+Proof.
+  intros H1 H2. cbn [get_map_loop].
+  rewrite (N.mod_small (N.of_nat off1)) by exact H1. rewrite H2, N.mod_same by discriminate.
+  destruct (N.ltb_spec (N.of_nat (off1 + 0) mod two32) 0); [lia | reflexivity].
+Qed.
+Example get_map_loop_wrap_exits_ex : N.of_nat 12 < two32 /\ N.of_nat 12 + 4294967284 = two32.
+Proof. split; reflexivity. Qed.
+
+(* the theorems applied to the concrete instances *)
+Example use_parse_enc_channel :
+  parse_channel (enc_channel ex_channel ++ ex_pad) = Ok (channel_norm ex_channel).
+Proof. exact (parse_enc_channel _ _ wf_channel_ex). Qed.
+Example use_parse_enc_statistics_sorted :
+  parse_statistics (enc_statistics ex_statistics_sorted ++ ex_pad) = Ok ex_statistics_sorted.
+Proof. exact (parse_enc_statistics_sorted _ _ (proj1 wf_statistics_sorted_ex) (proj2 wf_statistics_sorted_ex)). Qed.
+Example use_parse_enc_chunkindex_sorted :
+  parse_chunkindex (enc_chunkindex ex_chunkindex_sorted ++ ex_pad) = Ok ex_chunkindex_sorted.
+Proof. exact (parse_enc_chunkindex_sorted _ _ (proj1 wf_chunkindex_sorted_ex) (proj2 wf_chunkindex_sorted_ex)). Qed.
+
+(* ====================================================================== *)
+(** * 11. kv_set versus kv_insert (general position, not only "append at the end") *)
+
+(* Go map assignment of a fresh key on the sorted association list = sorted insertion *)
+Lemma kv_set_insert k v l : ~ In k (map fst l) -> kv_set k v l = kv_insert (k, v) l.
+Proof.
+  induction l as [|x r IH]; cbn [kv_set kv_insert map fst]; intro H; [reflexivity|].
+  destruct (bytes_eqb (fst x) k) eqn:E.
+  - exfalso. apply H. left. apply bytes_eqb_eq, E.
+  - destruct (bytes_ltb k (fst x)) eqn:L.
+    + rewrite (bytes_ltb_asym _ _ L). reflexivity.
+    + destruct (bytes_ltb (fst x) k) eqn:L'.
+      * f_equal. apply IH. intro; apply H; right; assumption.
+      * exfalso. apply H. left. apply bytes_ltb_total; assumption.
+Qed.
+
+Lemma kv_build_from_insert l : forall acc,
+  NoDup (map fst (acc ++ l)) ->
+  kv_build_from acc l = fold_left (fun a kv => kv_insert kv a) l acc.
+Proof.
+  unfold kv_build_from.
+  induction l as [|[k v] l IH]; intros acc ND; cbn [fold_left fst snd]; [reflexivity|].
+  assert (Hk : ~ In k (map fst acc)).
+  { rewrite map_app in ND. cbn [map fst] in ND. apply NoDup_remove_2 in ND.
+    intro; apply ND, in_or_app; left; assumption. }
+  rewrite kv_set_insert by exact Hk. apply IH.
+  eapply Permutation_NoDup; [|exact ND]. apply Permutation_map.
+  rewrite <- Permutation_middle, app_comm_cons. apply Permutation_app_tail, kv_insert_perm.
+Qed.
+
+(* for distinct keys, replaying the assignments in any order is insertion sort *)
+Theorem kv_build_rev l : NoDup (map fst l) -> kv_build l = kv_sort (rev l).
+Proof.
+  intro ND. unfold kv_build. rewrite kv_build_from_insert by exact ND.
+  unfold kv_sort. symmetry. apply (fold_left_rev_right kv_insert).
+Qed.
+Example kv_build_rev_ex : NoDup (map fst ex_kvs) /\ kv_build ex_kvs = kv_sort ex_kvs.
+Proof. split; [exact (proj1 wf_kvs_ex) | vm_compute; reflexivity]. Qed.
